@@ -380,7 +380,7 @@ def run(ctx):
             labs.append("respelling-changed-atom-order")
         ctx.note(case, res["nontrivial"], labs)
 
-    ctx.hyp("c12", S.tapes(900).map(gen), check, ctx.scale(2400, 60000),
+    ctx.hyp("c12", S.mapped(900, gen), check, ctx.scale(2400, 60000),
             ddmin=False)
 
     # ---- all label pairs
